@@ -547,13 +547,50 @@ def a(ctx):
                    construct="%s  [%s]" % (stmt_text(st), what))
     ctx.ob("RESET is OBSERVATION_RESET_TIME of the request's transport tuning", RS == "self._pipe.request.transport_tuning.OBSERVATION_RESET_TIME", fi, r.cbs[0],
            detail="RESET = %s" % RS, construct="RESET = %s" % RS)
-    ci = ctx.prog.cls("numbers.constants.TransportTuning")
-    ctx.need("OBSERVATION_RESET_TIME" in ci.attrs, "TransportTuning.OBSERVATION_RESET_TIME missing")
-    try:
-        val = norm.consteval(ci.attrs["OBSERVATION_RESET_TIME"])
-    except NormError:
-        val = None
-    ctx.ob("OBSERVATION_RESET_TIME == 128 s", val == 128, None, None, detail="value %r" % (val,), construct="TransportTuning.OBSERVATION_RESET_TIME = %s" % stmt_text(ci.attrs["OBSERVATION_RESET_TIME"]))
+    _reset_time(ctx)
+
+
+TUNING = "numbers.constants.TransportTuning"
+
+
+def _reset_time(ctx):
+    """RESET is what `<a request's transport tuning>.OBSERVATION_RESET_TIME` evaluates to, not how it is written: the
+    attribute is looked up the way Python does on an instance of TransportTuning and of every subclass the
+    package defines (Message falls back to TransportTuning(); Reliable / Unreliable are offered to applications)
+    -- a class-level number, an expression over other class-level / module-level constants, or a property
+    derived from other parameters (which are themselves evaluated on that class, so an override of a parameter
+    in a subclass reaches the derived value).  The RFC's 128 s is the reference; the evaluator
+    (kit.InstanceConstants) refuses what it cannot interpret, and so does this rule when anything in the package
+    stores to one of the consulted parameters through an instance (the value would then depend on the run)."""
+    from ._kit_c07 import InstanceConstants
+    prog = ctx.prog
+    ci = prog.cls(TUNING)
+    ic = InstanceConstants(prog)
+    for q in sorted(prog.subclasses(ci.qn), key=lambda q: (q != ci.qn, q)):
+        val = ic.value(q, "OBSERVATION_RESET_TIME")
+        qi = prog.classes[q]
+        where = None
+        for o in prog.mro(q):
+            oi = prog.classes.get(o)
+            hit = [st for st in (oi.node.body if oi is not None else []) if (isinstance(st, (ast.FunctionDef, ast.AsyncFunctionDef)) and st.name == "OBSERVATION_RESET_TIME")
+                   or (isinstance(st, ast.Assign) and any(isinstance(t, ast.Name) and t.id == "OBSERVATION_RESET_TIME" for t in st.targets))
+                   or (isinstance(st, ast.AnnAssign) and isinstance(st.target, ast.Name) and st.target.id == "OBSERVATION_RESET_TIME")]
+            if hit:
+                where = hit[0]
+                break
+        shown = stmt_text(where).splitlines()[0] if where is not None else "?"
+        ctx.ob("OBSERVATION_RESET_TIME == 128 s", val == 128, None, None, detail="value %r on an instance of %s" % (val, qi.qn.split(".")[-1]),
+               construct="%s.OBSERVATION_RESET_TIME: %s" % (qi.qn.split(".")[-1], shown))
+    for name in sorted(ic.consulted):
+        w = field_writers(prog, name)
+        for fn in sorted(w):
+            hits = w[fn]
+            ctx.need(not hits, "%s stores to .%s of some object; the value of OBSERVATION_RESET_TIME on a transport tuning is then not a constant the rule can evaluate" % (fn, name))
+        for wfi in prog.funcs.values():
+            for c in walk_with_lambdas(wfi.node):
+                if isinstance(c, ast.Call) and isinstance(c.func, ast.Name) and c.func.id == "setattr" and len(c.args) == 3:
+                    nm = c.args[1]
+                    ctx.need(not (isinstance(nm, ast.Constant) and nm.value == name), "%s sets .%s through setattr" % (wfi.short, name))
 
 
 @R.clause("C07.b", "V1/T1 are updated exactly when the notification is fresh; the callback gets the notification's message, only for events without exception and only after the cancelled-check that follows the yield")
@@ -1422,6 +1459,18 @@ def j_token_provenance(ctx):
     ctx.floor("writers of the state next_token draws from", n, 1)
 
 
+@R.clause("C07.k", "a token stays the observation's alone for as long as it runs: tokens come from a 64-bit counter that only next_token advances, by one, rendered injectively within 8 bytes, so no request issued while the observation lives can be filed under its (token, remote) and take its notifications (shared with C02.d)")
+def k_shared(ctx):
+    """C07.j decides that nothing which is or was a token flows back into the source; that alone does not keep
+    the source from repeating itself.  `outgoing_requests[key] = request` overwrites, and nothing in request()
+    looks whether the key is taken, so the only thing between a years-long observation and a later request
+    filed under its key is the period of the token source: the necessary condition is C02.d's (2**64 distinct
+    tokens before a repeat, decided by running next_token in the checker's evaluator, whatever its spelling),
+    and it is reused here rather than restated."""
+    from . import c02
+    c02.d(ctx)
+
+
 # ---------------------------------------------------------------------------
 # C07.i  the end of a CoAP-over-TCP/TLS connection reaches the token manager's error fan-out
 
@@ -1725,3 +1774,11 @@ R.seed("C07.i", F_TCP, "        # FIXME: return true and initiate own shutdown i
 R.seed("C07.j", F_TM, "        self._token = (self._token + 1) % (2**64)\n", "        for t, _r in self.outgoing_requests:\n            if len(t) < 2:\n                return t\n        self._token = (self._token + 1) % (2**64)\n", "a short token of a request still in flight is handed out again")
 R.seed("C07.j", F_TM, "        if final:\n            self.outgoing_requests.pop(key)\n", "        if final:\n            self.outgoing_requests.pop(key)\n            self._token = int.from_bytes(key[0], \"big\") - 1\n", "counter rewound to the token of the exchange that just ended: the next request gets it at once, late notifications match it")
 R.seed("C07.j", F_TM, "            functools.partial(self.outgoing_requests.pop, key, None)\n        )\n", "            functools.partial(self.outgoing_requests.pop, key, None)\n        )\n        request.on_interest_end(lambda t=msg.token: setattr(self, \"_token\", int.from_bytes(t, \"big\") - 1))\n", "token of an ended exchange recycled through a hook")
+
+# C07.a: the reset time through its dependencies (evaluated on TransportTuning and its subclasses)
+R.seed("C07.a", F_CON, "    OBSERVATION_RESET_TIME = 128\n", "    @property\n    def OBSERVATION_RESET_TIME(self):\n        return max(128, self.MAX_TRANSMIT_SPAN + self.MAX_LATENCY)\n", "reset time follows NON_LIFETIME: 145 s with the default parameters")
+R.seed("C07.a", F_CON, "    reliability = False\n", "    reliability = False\n    OBSERVATION_RESET_TIME = 64\n", "a tuning the package offers overrides the reset time")
+R.seed("C07.a", F_CON, "    OBSERVATION_RESET_TIME = 128\n", "    OBSERVATION_RESET_TIME = 2 * DEFAULT_LEISURE + 128\n", "reset time derived from another parameter: 138 s")
+# C07.k (shared with C02.d): the period of the token source
+R.seed("C07.k", F_TM, "        self._token = (self._token + 1) % (2**64)", "        self._token = (self._token + 1) % (2**16)", "token of a running observation handed out again after 65536 requests")
+R.seed("C07.k", F_TM, "        return self._token.to_bytes(8, \"big\").lstrip(b\"\\0\")", "        return self._token.to_bytes(8, \"big\")[-2:]", "only the low two bytes of the counter are used: tokens repeat after 65536 requests")
